@@ -270,7 +270,8 @@ func Drive(id, tier string, seed int64, root, exe string) int {
 				for _, ln := range strings.Split(blk, "\n") {
 					t := strings.TrimSpace(ln)
 					if strings.HasPrefix(t, "github.com/") || strings.HasPrefix(t, "verif/") || strings.HasPrefix(t, "main.") {
-						if i := strings.Index(t, "("); i > 0 {
+						// "pkg.(*T).Method(args)": cut the argument list, not the receiver
+						if i := strings.LastIndex(t, "("); i > 0 {
 							t = t[:i]
 						}
 						tops = append(tops, t)
